@@ -13,16 +13,20 @@ CLAIMED = {
  "C01": dict(
   text="Tree model of the sqlfluff extractors (Tree/*.v, ~1500 lines of Gallina following the Python line by line) is run inside Coq on the very parse "
        "trees the implementation analyses (corpus + generated statements, several dialects); the denotational specification Ast/Spec.v (reads/writes) "
-       "is evaluated on the generated abstract syntax and compared with the implementation. Proved: statements that move no data report nothing, "
-       "unsupported statements are refused/skipped, refutation witnesses of 4 recorded defect classes.",
-  ref="DESIGN.md section 6 C01, section 12", note=TB + "Exactness M = S is checked by correspondence (I = M on every tree, I = S on every generated "
-       "statement inside the guard), not proved (Lemma A not done). Parser = oracle.",
-  tech="Coq model of the extractors evaluated on the parser's trees + executable Coq specification on generated ASTs"),
+       "is evaluated on the generated abstract syntax and compared with the implementation. Proved: Lemma A (c01_exact_on_rendered_core) - for every "
+       "statement of a core fragment (column/star items, base and derived tables, joins, WHERE-IN sub-queries, unions, outermost WITH; any size, any "
+       "nesting depth, any trivia between tokens) the model's reads/writes on the rendered tree equal the specification; the rendering function is compared "
+       "with the real parser's tree on every run. Also: statements that move no data report nothing, unsupported statements are refused/skipped, the "
+       "recursive-CTE specification is conservative, refutation witnesses of the recorded defect classes (two of them found by the proof attempt).",
+  ref="DESIGN.md section 6 C01, section 12", note=TB + "Outside the fragment of Lemma A (expressions, join groups, CTE chains, recursion, other dialects' tree shapes) exactness M = S is "
+       "checked by correspondence (I = M on every tree, I = S on every generated statement inside the guard), not proved. Parser = oracle; "
+       "Tree/Render.v is tied to it by suite T3-render.",
+  tech="Coq proof (Lemma A: model on rendered trees = denotational spec, by induction on fuel/structure) + Coq model of the extractors evaluated on the parser's trees + executable Coq specification on generated ASTs"),
  "C02": dict(
   text="As C01 for end-to-end column pairs: tree model + assembly + path enumeration (Holder/Build.v) inside Coq on the implementation's parse trees; "
        "specification spec_flows (aliases shadow names, unresolved columns keep candidates, set operations positional, derived tables and CTEs by "
        "composition) evaluated on generated ASTs. Proved: refutation witnesses of 6 recorded defect classes.",
-  ref="DESIGN.md section 6 C02, section 12", note=TB + "M = S not proved; guarded generator excludes recorded classes K-C02-1..6 (replayed separately).",
+  ref="DESIGN.md section 6 C02, section 12", note=TB + "M = S not proved; guarded generator excludes recorded classes K-C02-1..8 (replayed separately).",
   tech="Coq model evaluated on the parser's trees + executable Coq specification on generated ASTs"),
  "C03": dict(
   text="Theorems about a Gallina model of SQLLineageHolder._build_digraph and the role accessors at dataset level: for scripts without DROP/RENAME "
@@ -50,21 +54,23 @@ CLAIMED = {
   tech="Coq proof (induction on fuel/paths) + holder-level correspondence"),
  "C07": dict(
   text="Theorems: unquoted identifiers case-insensitive, quoting a lower-case identifier changes nothing, separators/comments/extra semicolons do not change "
-       "the statement list, and every navigation combinator of the extractors commutes with erasing whitespace/comment/meta segments on well-formed trees. "
+       "the statement list, every navigation combinator of the extractors commutes with erasing whitespace/comment/meta segments on well-formed trees, and (corollary of "
+       "Lemma A) the whole extractor's table lineage on the core fragment does not depend on the trivia between tokens. "
        "Metamorphic comparison on the implementation under 11 token-level rewrites per dialect; tie on the rewritten text.",
-  ref="DESIGN.md section 6 C07", note=TB + "Invariance of the whole extractor is checked (I(rewrite) = I(plain), I = M on rewritten trees), not proved; "
+  ref="DESIGN.md section 6 C07", note=TB + "Invariance of the whole extractor at column level and outside the core fragment is checked (I(rewrite) = I(plain), I = M on rewritten trees), not proved; "
        "tree well-formedness assumptions of the theorems are monitored on every tree.",
   tech="Coq proof (string laws, splitter, strong induction on rose trees) + metamorphic rewrites"),
  "C08": dict(
   text="Theorem: the specification (tables and column flows) is invariant under admissible renaming of aliases, derived-table aliases and CTE names; the naive "
-       "admissibility was refuted by the proof attempt and three necessary side conditions added. Metamorphic comparison on the implementation under six "
-       "adversarial renaming pools x AS keyword, per dialect; I = S on the unrenamed statement.",
+       "admissibility was refuted by the proof attempt and three necessary side conditions added; with Lemma A the tree model itself is invariant at table level "
+       "on the core fragment (c08_tables_alpha_on_core). Metamorphic comparison on the implementation under six "
+       "adversarial renaming pools x AS keyword + scope-aware renaming to names of the enclosing query's tables, per dialect; I = S on the unrenamed statement.",
   ref="DESIGN.md section 6 C08", note=TB + "The theorem is about the specification; the implementation is tied to it by C01/C02-style comparison and by the metamorphic check.",
   tech="Coq proof (alpha-equivalence of the denotational spec) + metamorphic renamings"),
  "C09": dict(
   text="Theorem: the extractors are dialect-parametric (the dialect name is only compared with 'vertica'), so cross-dialect agreement reduces to agreement of "
        "parse trees (parser oracle). Every generated statement is analysed under all 28 installed dialects and the legacy analyzer; the tie holds per dialect.",
-  ref="DESIGN.md section 6 C09", note=TB + "Tree-shape agreement across dialects and the legacy analyzer are observed, not proved; recorded classes K-C09-1/2/6.",
+  ref="DESIGN.md section 6 C09", note=TB + "Tree-shape agreement across dialects and the legacy analyzer are observed, not proved; recorded classes K-C09-1/2/6/7.",
   tech="Coq proof (parametricity by construction) + cross-dialect differential run"),
  "C10": dict(
   text="Theorems: unsupported statement types raise the library's own exception or become an empty holder in silent mode, and an empty holder never changes the "
@@ -90,10 +96,13 @@ CLAIMED = {
   ref="DESIGN.md section 6 C13", note=TB + "The refinement clauses are evaluated on the implementation for templated statements, not proved.",
   tech="Coq proof (provider independence) + clause scenarios + model correspondence with metadata"),
  "C14": dict(
-  text="The specification takes the default schema as a parameter; on the implementation, scoped override = environment variable (fresh process) = explicit "
+  text="Theorems: on the specification, analysing with default schema S equals analysing the explicitly qualified statement without a default "
+       "(c14_spec_default_is_qualification, all statements); with Lemma A the same holds for the tree model on the core fragment "
+       "(c14_default_is_qualification_on_core). The specification takes the default schema as a parameter; on the implementation, scoped override = environment variable (fresh process) = explicit "
        "qualification = specification, for every generated statement incl. qualified names spelled as one quoted dotted identifier. Regression witness for fix F5.",
-  ref="DESIGN.md section 6 C14", note=TB + "The equivalence is checked, not proved.",
-  tech="Coq model with call-time/import-time default + three-way metamorphic comparison"),
+  ref="DESIGN.md section 6 C14", note=TB + "Table level proved (spec: all statements; model: core fragment); the column level and the mechanisms (scoped override, environment, "
+       "combination with other options) are checked on the implementation, not proved.",
+  tech="Coq proof (qualification lemma on the spec, corollary of Lemma A on the model) + Coq model with call-time/import-time default + four-way metamorphic comparison"),
  "C15": dict(
   text="Theorems about the configuration loader: non-interference of threads for every history and interleaving, scope semantics incl. exceptional exit and "
        "identifier reuse, rejected operations are no-ops, type coercion. Model evaluated inside Coq on the same histories / thread programs; real threads "
